@@ -348,8 +348,19 @@ theorem runCount_spec : ∀ (n i : Nat) (st : State U M) (c : Nat),
 theorem body_prefix (i : Nat) (st : State U M) :
     ∃ l, (body step ext get maxHops i st).1.hops = st.hops ++ l := by
   unfold body
-  repeat' split
-  all_goals first | exact ⟨[], by simp⟩ | exact ⟨[_], rfl⟩
+  cases hs : step st.url st.method with
+  | reqErr => exact ⟨[], by simp⟩
+  | resp status loc =>
+    cases hr : isRedirect status with
+    | false => exact ⟨[], by simp [hr]⟩
+    | true =>
+      cases loc with
+      | none => exact ⟨[], by simp [hr]⟩
+      | some newUrl =>
+        refine ⟨[⟨newUrl, status, if rewritesToGet status then get else st.method⟩], ?_⟩
+        simp only [hr, Bool.not_true, Bool.false_eq_true, if_false]
+        repeat' split
+        all_goals rfl
 
 theorem run_prefix : ∀ (n i : Nat) (st : State U M),
     ∃ l, (run step ext get maxHops i n st).hops = st.hops ++ l := by
